@@ -39,5 +39,5 @@ def burst_histories(r, thorough):
 
 
 def run(tier, replay=None):
-    return srvprops.run(PROP, THEOREMS, tier, replay, extra_gen=burst_histories,
-                        rule_note="plus pipelined bursts of 5-300 requests in one write (in-flight limit 512)")
+    return srvprops.run(PROP, THEOREMS, tier, replay, extra_gen=lambda r, th: burst_histories(r, th) + sl.split_histories(r, th),
+                        rule_note="plus pipelined bursts of 5-300 requests in one write (in-flight limit 512); plus request headers split over two writes with server-to-client traffic on the same connection in between")
